@@ -106,9 +106,14 @@ pub fn slack_i(x: &BigInt) -> BigInt {
 
 impl Val {
     pub fn parse(t: &str) -> Val {
+        let hex_ok = |h: &str| h.bytes().all(|c| c.is_ascii_hexdigit());
         match t.as_bytes().first() {
-            Some(b'U') => Val::U(mk_u(&t[1..])),
-            Some(b'I') => Val::I(mk_i(&t[1..])),
+            Some(b'U') if hex_ok(&t[1..]) => Val::U(mk_u(&t[1..])),
+            Some(b'I') => {
+                let r = &t[1..];
+                let ok = r == "0" || ((r.starts_with('+') || r.starts_with('-')) && hex_ok(&r[1..]));
+                if ok { Val::I(mk_i(r)) } else { Val::Other }
+            }
             _ => Val::Other,
         }
     }
